@@ -9,6 +9,7 @@ the published formulas, the exact residual of `u (*) ~u - delta` resp. `m U U^T 
 output, Gram matrices of the bound basis on the implementation, the sign rule on exact DC/Nyquist sums.
 """
 import importlib.util
+import cmath
 import math
 import warnings
 
@@ -23,7 +24,8 @@ from nengo_spa.vector_generation import UnitaryVectors
 from nengo_spa.vocabulary import Vocabulary
 
 PROPERTY = "C12"
-LEAN_MODULES = ["SpaModel.Props.C12"]
+LEAN_MODULES = ["SpaModel.Props.C12", "SpaModel.Props.C12S", "SpaModel.Spectral.HrrFFT", "SpaModel.Spectral.RealFFT",
+                "SpaModel.Spectral.Conv", "SpaModel.Spectral.CosSum"]
 AUDIT = "SpaModel/Audit/C12.lean"
 DRIVER = "drivers/C12.lean"
 RULE = ("one case = (operation, algebra, exact input vector, exponent / partner); operations: integer power "
@@ -35,10 +37,14 @@ RULE = ("one case = (operation, algebra, exact input vector, exponent / partner)
 ASSUMPTIONS = [
     "NumPy fft/dot/kron/solve/norm and IEEE rounding: compared at 1e-9 relative to (sum|v|)^|n| (powers) resp. the "
     "condition number of the leading blocks (VTB/TVTB make_unitary)",
-    "HRR binding_power goes through rfft(v)**|e|; the model is the |e|-fold convolution product (modelled, tied numerically)",
-    "HRR make_unitary (half spectrum normalised to modulus 1, exact zeros replaced by 1, irfft) and fractional powers "
-    "are defined through the spectrum and are NOT modelled: certified per input (exact residual <= 1e-9, additivity at 1e-9) "
-    "-> clauses `Hrr.makeUnitary_isUnitary`, `Hrr.fractional_power_add` are `_partial`",
+    "HRR spectral stage (Props/C12S.lean): bind, make_unitary and binding_power are modelled on NumPy's half spectrum "
+    "(Spectral.rfft = DFT coefficients 0..d/2, Spectral.irfft = the C2R formula in which the imaginary parts of the DC and "
+    "Nyquist coefficients do not contribute) and PROVED for every d and every real vector: irfft(rfft a * rfft b) = a (*) b, "
+    "make_unitary(v) is unitary, integer powers = n-fold binding, non-negative real exponents add under the sign gate. "
+    "These definitions use real/complex analysis and cannot be executed by the driver: they are tied to the code by "
+    "evaluating the SAME formulas (explicit O(d^2) sums, no FFT) in the harness and comparing with np.fft.rfft/irfft, "
+    "HrrAlgebra.bind, make_unitary and binding_power at 1e-9 (`spectral_tie`); that NumPy's `**` on complex arrays is the "
+    "principal-branch power and IEEE rounding are trusted",
     "SciPy is not installed: VTB/TVTB fractional powers are out of reach (ImportError is what runs and what is modelled); "
     "integer powers use the fallback loop",
     "np.linalg.solve is modelled by its post-condition A x = y (driver: checked Gaussian elimination); "
@@ -202,12 +208,15 @@ def _run(ctx):
     nd = getattr(ctx, "no_driver", False)
     quick = ctx.tier == "quick"
     ctx.extra["scipy_available"] = HAVE_SCIPY
-    ctx.extra["partial_clauses"] = ["Hrr.makeUnitary_isUnitary_partial (per-input residual certificate)",
-                                    "Hrr.fractional_power_add_partial (per-input additivity at 1e-9)"]
+    ctx.extra["spectral_stage"] = ("Props/C12S.lean proves Hrr make_unitary unitarity, integer powers and real-exponent "
+                                   "additivity for all d on the half-spectrum model; the per-input residual certificates below "
+                                   "remain as the oracle on the implementation's outputs")
 
     def ask(op, args, cb):
         if not nd:
             ctx.ask(op, args, cb)
+
+    spectral_tie(ctx)
 
     # ---------------------------------------------------------------- integer powers
     for alg, A in ALGS.items():
@@ -628,6 +637,96 @@ def _kappa(v, m):
         return 1e6
     Mf = np.array([[float(x) for x in row] for row in M])
     return max([1.0] + [float(np.linalg.cond(Mf[:i, :i])) for i in range(1, m)])
+
+
+# ---------------------------------------------------------------- spectral tie (Props/C12S.lean)
+def m_rfft(v):
+    """Spectral.rfft: coefficient w = sum_x v[x] exp(-2 pi i w x / N), w = 0..N/2 (explicit sum, no FFT)"""
+    n = len(v)
+    return [sum(complex(v[x]) * cmath.exp(-2j * math.pi * ((w * x) % n) / n) for x in range(n)) for w in range(n // 2 + 1)]
+
+
+def m_irfft(h, n):
+    """Spectral.irfft: x[j] = (1/N) sum_{w <= N/2} f_w Re(h[w] exp(2 pi i w j / N)), f_w = 1 for DC/Nyquist else 2"""
+    out = []
+    for j in range(n):
+        acc = 0.0
+        for w in range(n // 2 + 1):
+            f = 1.0 if (w == 0 or 2 * w == n) else 2.0
+            acc += f * (h[w] * cmath.exp(2j * math.pi * ((w * j) % n) / n)).real
+        out.append(acc / n)
+    return out
+
+
+def m_unitize(z):
+    """Spectral.unitize: modulus not positive -> 1, else z / |z|"""
+    r = abs(z)
+    return 1.0 + 0j if r <= 0.0 else z / r
+
+
+def spectral_tie(ctx):
+    rng = ctx.rng
+    A = ALGS["hrr"]
+    quick = ctx.tier == "quick"
+    worst = {"rfft": 0.0, "irfft": 0.0, "bind": 0.0, "make_unitary": 0.0, "power": 0.0}
+    ds = list(range(1, 18)) + [24, 31, 32, 63, 64] if quick else list(range(1, 65))
+    for d in ds:
+        vecs = []
+        for _ in range(2 if quick else 5):
+            vecs.append([rng.randint(-16, 16) / 8.0 for _ in range(d)])
+        vecs.append([0.0] * d)                                            # every coefficient vanishes
+        vecs.append([1.0] * d)                                            # only the DC coefficient survives
+        vecs.append([(-1.0) ** i for i in range(d)])                      # even d: only the Nyquist coefficient
+        vecs.append([1.0 if i % 2 == 0 else 2.0 for i in range(d)])       # interior coefficients vanish
+        vecs.append([1.0] + [0.0] * (d - 1))
+        for v in vecs:
+            fv = np.array(v, float)
+            sc = float(np.abs(fv).sum()) + 1.0
+            case = {"op": "spectral-tie", "d": d, "v": common.qvec(fv)}
+            ctx.count(f"spectral {d} {case['v']}", nontrivial=any(v), branch="spectral-tie")
+            # (1) NumPy's transform pair is the model's
+            mr = m_rfft(v)
+            e1 = float(np.abs(np.fft.rfft(fv) - np.array(mr)).max())
+            h = [complex(rng.randint(-8, 8) / 4.0, rng.randint(-8, 8) / 4.0) for _ in range(d // 2 + 1)]   # DC/Nyquist NOT real
+            e2 = float(np.abs(np.fft.irfft(np.array(h), n=d) - np.array(m_irfft(h, d))).max())
+            worst["rfft"], worst["irfft"] = max(worst["rfft"], e1 / sc), max(worst["irfft"], e2)
+            if e1 > 1e-9 * sc:
+                ctx.diff(dict(case, what="np.fft.rfft vs Spectral.rfft"), e1, "<= 1e-9", op="spectral-rfft")
+            if e2 > 1e-9 * 8:
+                ctx.diff(dict(case, what="np.fft.irfft vs Spectral.irfft", h=str(h)[:200]), e2, "<= 1e-9", op="spectral-irfft")
+            # (2) the three code paths are the model's compositions
+            w2 = [rng.randint(-16, 16) / 8.0 for _ in range(d)]
+            mb = m_irfft([a * b for a, b in zip(mr, m_rfft(w2))], d)
+            e3 = float(np.abs(A.bind(fv, np.array(w2)) - np.array(mb)).max())
+            mu = m_irfft([m_unitize(z) for z in mr], d)
+            e4 = float(np.abs(A.make_unitary(fv) - np.array(mu)).max())
+            clean_spectrum = all(abs(z) == 0 or abs(z) > 1e-6 * sc for z in mr)
+            worst["bind"] = max(worst["bind"], e3 / (sc * 3 * d))
+            if clean_spectrum:
+                worst["make_unitary"] = max(worst["make_unitary"], e4)
+            if e3 > 1e-9 * sc * 3 * d:
+                ctx.diff(dict(case, what="HrrAlgebra.bind vs C12.HrrFFT.bind", b=common.qvec(w2)), e3, "<= 1e-9", op="spectral-bind")
+            # make_unitary divides by the modulus: a coefficient that is zero only up to rounding is a float boundary
+            if e4 > 1e-9 and clean_spectrum:
+                ctx.diff(dict(case, what="HrrAlgebra.make_unitary vs C12.HrrFFT.makeUnitary"), e4, "<= 1e-9", op="spectral-make-unitary")
+            for e in (0, 1, 2, 3, -1, -2):
+                src = [v[(-i) % d] for i in range(d)] if e < 0 else v
+                mp = m_irfft([z ** abs(e) for z in m_rfft(src)], d)
+                got = A.binding_power(fv, e)
+                e5 = float(np.abs(got - np.array(mp)).max())
+                worst["power"] = max(worst["power"], e5 / (sc ** max(1, abs(e))))
+                if e5 > 1e-9 * sc ** max(1, abs(e)) * d:
+                    ctx.diff(dict(case, what="binding_power vs C12.HrrFFT.power", exponent=e), e5, "<= 1e-9", op="spectral-power")
+            dc, ny = sum(v), sum((-1) ** i * x for i, x in enumerate(v))
+            # fractional powers amplify a coefficient that is zero only up to rounding (|z|**0.5): float boundary, skipped
+            if dc > 0 and (d % 2 == 1 or ny >= 0) and min(abs(z) for z in mr) > 1e-6 * sc:
+                for e in (0.5, 1.5, 2.25):
+                    mp = m_irfft([z ** e for z in mr], d)
+                    e5 = float(np.abs(A.binding_power(fv, e) - np.array(mp)).max())
+                    worst["power"] = max(worst["power"], e5 / (sc ** max(1.0, e)))
+                    if e5 > 1e-9 * sc ** max(1.0, e) * d:
+                        ctx.diff(dict(case, what="binding_power vs C12.HrrFFT.power", exponent=e), e5, "<= 1e-9", op="spectral-power")
+    ctx.extra["spectral_tie_max_relative_error"] = worst
 
 
 def search(ctx):
